@@ -59,6 +59,10 @@ pub assume_specification[ str::to_lowercase ](s: &str) -> (r: String) ensures r@
 pub assume_specification[ str::to_ascii_uppercase ](s: &str) -> (r: String) ensures r@ == str_upper(s@);
 pub assume_specification[ str::to_ascii_lowercase ](s: &str) -> (r: String) ensures r@ == str_lower(s@);
 pub assume_specification<'a>[ str::trim ](s: &'a str) -> (r: &'a str) ensures r@ == str_trim(s@);
+// `x.self_ref()` is `&x` whether x is a value or already a reference (method auto-ref): used by rewrite R18 to bind the receiver of an
+// inlined `&self` method once, whatever the receiver expression's own type
+pub trait SelfRef { fn self_ref(&self) -> (r: &Self) ensures r == self; }
+impl<T> SelfRef for T { fn self_ref(&self) -> (r: &T) { self } }
 // string equality test used by rewrite R17 (a `match` on string literals becomes an if-chain over it): exact in both directions
 #[verifier::external_body]
 pub fn str_is(a: &str, b: &str) -> (r: bool)
